@@ -123,10 +123,10 @@ Proof.
   pose proof builder_ok_upto3 as H.
   apply andb_true_iff in H as [H H3]. apply andb_true_iff in H as [H1 H2].
   assert (Hc : builder_case_ok i = true).
-  { destruct n as [|[|[|[|n]]]]; try lia.
-    - eapply forall_inputs_spec; eauto.
-    - eapply forall_inputs_spec; eauto.
-    - eapply forall_inputs_spec; eauto. }
+  { unfold i. destruct n as [|[|[|[|n]]]]; try lia.
+    - exact (forall_inputs_spec 1 builder_case_ok H1 ov ol tv tl lok m force Hov Hol Htv Htl Hlok Hm).
+    - exact (forall_inputs_spec 2 builder_case_ok H2 ov ol tv tl lok m force Hov Hol Htv Htl Hlok Hm).
+    - exact (forall_inputs_spec 3 builder_case_ok H3 ov ol tv tl lok m force Hov Hol Htv Htl Hlok Hm). }
   eapply builder_case_ok_elim; eauto.
 Qed.
 
@@ -211,7 +211,10 @@ Proof.
       rewrite forallb_forall in Hk. specialize (Hk ov Hov'). rewrite Hr in Hk. cbn [negb orb] in Hk.
       rewrite forallb_forall in Hk. specialize (Hk ol Hol).
       rewrite forallb_forall in Hk. exact (Hk lok Hlok'). }
-    destruct n as [|[|[|[|n]]]]; try lia; eauto. }
+    destruct n as [|[|[|[|n]]]]; try lia.
+    - exact (G 1%nat H1 Hov Hlok).
+    - exact (G 2%nat H2 Hov Hlok).
+    - exact (G 3%nat H3 Hov Hlok). }
   unfold leave_case_ok in Hc. destruct (leave_joint_op c r) as [ss kl kr| |]; try discriminate.
   exists ss, kl, kr. auto.
 Qed.
